@@ -747,6 +747,133 @@ func sameValue(a, b ssa.Value) bool {
 	return false
 }
 
+// expandBoolCalls: a guard of the form "helper(args) returned true" implies whatever must hold on every way the helper
+// can return true. For each such atom (callee in the repository, single bool result) the conditions common to all
+// true-capable returns are added; bind maps the helper's parameters to the caller's arguments so that value predicates
+// can look through them.
+func expandBoolCalls(p *Prog, atoms []Atom) (out []Atom, bind map[ssa.Value]ssa.Value) {
+	bind = map[ssa.Value]ssa.Value{}
+	out = append(out, atoms...)
+	for _, a := range atoms {
+		if a.Kind != "call" || !a.Pol || a.Call == nil {
+			continue
+		}
+		g := a.Call.Call.StaticCallee()
+		if g == nil || !p.InRepo(g) || len(g.Blocks) == 0 || g.Signature.Results().Len() != 1 || typeStr(g.Signature.Results().At(0).Type()) != "bool" {
+			continue
+		}
+		args := callArgs(&a.Call.Call)
+		if len(args) == len(g.Params) {
+			for k, prm := range g.Params {
+				bind[prm] = args[k]
+			}
+		}
+		var common map[string]Atom
+		for _, r := range returnsOf(g) {
+			if len(r.Results) != 1 {
+				continue
+			}
+			v := r.Results[0]
+			if b, isB := boolConst(v); isB && !b {
+				continue
+			}
+			var conds []Atom
+			for _, gd := range GuardsOf(r.Block()) {
+				conds = append(conds, NormCond(gd.Cond, gd.Pol))
+			}
+			if _, isB := boolConst(v); !isB {
+				conds = append(conds, NormCond(v, true))
+				for _, gd := range shortCircuitGuards(v, true, nil, 0) {
+					conds = append(conds, NormCond(gd.Cond, gd.Pol))
+				}
+			}
+			set := map[string]Atom{}
+			for _, cnd := range conds {
+				set[cnd.String()] = cnd
+			}
+			if common == nil {
+				common = set
+			} else {
+				for k := range common {
+					if _, ok := set[k]; !ok {
+						delete(common, k)
+					}
+				}
+			}
+		}
+		for _, cnd := range common {
+			out = append(out, cnd)
+		}
+	}
+	return out, bind
+}
+
+// mentions: does the expression tree of v (operands, bounded depth, through φ) contain a value satisfying pred?
+func mentions(v ssa.Value, pred func(ssa.Value) bool) bool {
+	seen := map[ssa.Value]bool{}
+	var walk func(x ssa.Value, d int) bool
+	walk = func(x ssa.Value, d int) bool {
+		if x == nil || d > 10 || seen[x] {
+			return false
+		}
+		seen[x] = true
+		if pred(x) {
+			return true
+		}
+		in, ok := x.(ssa.Instruction)
+		if !ok {
+			return false
+		}
+		for _, op := range in.Operands(nil) {
+			if op != nil && *op != nil && walk(*op, d+1) {
+				return true
+			}
+		}
+		// varargs / composite temporaries: what was stored into the allocation the slice is taken from
+		if al, isAl := x.(*ssa.Alloc); isAl {
+			for _, r := range *al.Referrers() {
+				switch y := r.(type) {
+				case *ssa.Store:
+					if y.Addr == ssa.Value(al) && walk(y.Val, d+1) {
+						return true
+					}
+				case *ssa.IndexAddr:
+					for _, rr := range *y.Referrers() {
+						if st, isSt := rr.(*ssa.Store); isSt && st.Addr == ssa.Value(y) && walk(st.Val, d+1) {
+							return true
+						}
+					}
+				case *ssa.Slice:
+					// copy(alloc[:], src) fills the allocation from src
+					for _, rr := range *y.Referrers() {
+						if cc, isC := rr.(*ssa.Call); isC && calleeName(&cc.Call) == "builtin.copy" && cc.Call.Args[0] == ssa.Value(y) && walk(cc.Call.Args[1], d+1) {
+							return true
+						}
+					}
+				}
+			}
+		}
+		return false
+	}
+	return walk(v, 0)
+}
+
+// mentionsField: the expression reads or addresses struct field fv somewhere.
+func mentionsField(v ssa.Value, fv *types.Var) bool {
+	if fv == nil {
+		return false
+	}
+	return mentions(v, func(x ssa.Value) bool { f, _ := fieldVar(x); return f == fv })
+}
+
+// mentionsCallTo: the expression contains a call whose callee name ends in suffix.
+func mentionsCallTo(v ssa.Value, suffix string) bool {
+	return mentions(v, func(x ssa.Value) bool {
+		c, ok := x.(*ssa.Call)
+		return ok && strings.HasSuffix(calleeName(&c.Call), suffix)
+	})
+}
+
 // sameExpr: structural equality of two side-effect-free expressions — the same value, equal constants, loads of the same
 // place (same root, same field/index path; intervening stores are NOT considered, callers use it only where the place is
 // not written in between), len() of the same slice, and the same operator applied to equal operands.
